@@ -355,7 +355,7 @@ func applicable(p *prog.Program, tag string) bool {
 		return p.HasFeature("predicate")
 	case "state":
 		return p.HasFeature("emitters")
-	case "wide":
+	case "wide", "widegx":
 		return p.HasFeature("wide")
 	}
 	return true
